@@ -234,6 +234,40 @@ class Case:
         return out
 
 
+
+def inject(opt, state, t):
+    """write a per-parameter optimizer state through the attribute layout of the pinned tree (parallel lists with one
+    entry per parameter + a global counter `t`).  How an optimizer keeps its state is its own business, so this is only
+    used after StepCase.injection_works() has shown - by behaviour, not by looking at the attributes - that a state
+    written this way is the state the next step() really uses; otherwise the case is unsupported (inconclusive)."""
+    from ..symnum.scalar import Unsupported
+    for name, val in state.items():
+        cur = getattr(opt, name, None)
+        if not (isinstance(cur, list) and len(cur) == 1):
+            raise Unsupported("the optimizer keeps its state in a layout this harness does not know (%s)" % name)
+        try:
+            cur[0] = val
+        except Exception:  # noqa: BLE001
+            raise Unsupported("the optimizer state %s cannot be written" % name)
+        if getattr(opt, name)[0] is not val:
+            raise Unsupported("the optimizer state %s is not kept where this harness writes it" % name)
+    try:
+        opt.t = t
+    except Exception:  # noqa: BLE001
+        raise Unsupported("the optimizer's step counter cannot be written")
+
+
+def extract(opt, names):
+    from ..symnum.scalar import Unsupported
+    st = {}
+    for name in names:
+        cur = getattr(opt, name, None)
+        if not (isinstance(cur, list) and len(cur) == 1):
+            raise Unsupported("the optimizer keeps its state in a layout this harness does not know (%s)" % name)
+        st[name] = cur[0].copy() if isinstance(cur[0], np.ndarray) else cur[0]
+    return st
+
+
 class StepCase(Case):
     """inductive step: arbitrary symbolic optimizer state (momentum buffer / moment estimates / step count) and an
     arbitrary gradient; one real step() must equal one step of the documented rule from that state.  Together with the
@@ -242,6 +276,54 @@ class StepCase(Case):
     def __init__(self, spec):
         self.spec = spec
         self.sig = sig_of(spec["opt"] + "-step", {"flags": spec["flags"], "state": spec["state"]}, None)
+
+
+    def injection_works(self, env, sp, k):
+        """behavioural validation of inject(): optimizer A reaches a state by k real steps on concrete gradients; that
+        state is copied into a fresh optimizer B around an equal parameter; one more step of each on the same gradient
+        must give bit-identical parameters (and B must differ from a fresh optimizer C without the injected state).  If
+        not, this harness cannot set the state of this implementation and the inductive step is unsupported."""
+        from synapgrad import nn, optim
+        from ..symnum.scalar import Unsupported
+        Tn = T()
+        fl = sp["flags"]
+        num = lambda v_, d: d if v_ == "s" else v_      # noqa: E731
+        if sp["opt"] == "SGD":
+            kw = dict(lr=0.125, momentum=num(fl["momentum"], 0.5), dampening=num(fl["dampening"], 0.25),
+                      weight_decay=num(fl["weight_decay"], 0.0625), nesterov=fl["nesterov"], maximize=fl["maximize"])
+            cls, names = optim.SGD, ["momentum_buffer"]
+        else:
+            kw = dict(lr=0.125, betas=(0.5, 0.75), eps=0.015625, weight_decay=num(fl["weight_decay"], 0.0625), maximize=fl["maximize"])
+            cls, names = (optim.Adam if sp["opt"] == "Adam" else optim.AdamW), ["m1", "m2", "steps"]
+        grads = [[0.5, -1.25], [-0.75, 2.0], [1.5, 0.25], [-2.0, 1.0], [0.125, -0.5], [1.0, 1.0]]
+
+        def mk(vals):
+            q = nn.Parameter(Tn(vals, requires_grad=True))
+            return q, cls([q], **kw)
+
+        def key(x):      # symbolic run: hash-consed nodes (identical computations give identical nodes); plain run: floats
+            if env.sym:
+                return [id(n) for n in E.flat_nodes(x)[0]]
+            return [float(v_) for v_ in np.asarray(x, dtype=np.float64).ravel()]
+        try:
+            pa, A = mk(env.const([0.75, -1.5], np.float64))
+            for i in range(k):
+                pa._grad = env.const(grads[i], np.float64)
+                A.step()
+            st = extract(A, names)
+            pb, B = mk(snapshot(pa.data))
+            pc, C = mk(snapshot(pa.data))
+            inject(B, st, k if sp["opt"] != "SGD" else 3)
+            for q, O in ((pa, A), (pb, B), (pc, C)):
+                q._grad = env.const(grads[k], np.float64)
+                O.step()
+            va, vb, vc = (key(q.data) for q in (pa, pb, pc))
+        except Unsupported:
+            raise
+        except Exception as e:  # noqa: BLE001
+            raise Unsupported("state injection could not be validated: %r" % (e,))
+        if va != vb or vb == vc:
+            raise Unsupported("a state written through the known attribute layout is not the state step() uses")
 
     def run(self, env):
         from synapgrad import nn, optim
@@ -260,12 +342,9 @@ class StepCase(Case):
             opt = optim.SGD([p], lr=h["lr"], momentum=h["momentum"], dampening=h["dampening"],
                             weight_decay=h["weight_decay"], nesterov=h["nesterov"], maximize=h["maximize"])
             if sp["state"] == "buffer":
+                self.injection_works(env, sp, 1)
                 b = env.arr("buf", shp)
-                if not (isinstance(getattr(opt, "momentum_buffer", None), list) and len(opt.momentum_buffer) == 1):
-                    from ..symnum.scalar import Unsupported
-                    raise Unsupported("SGD keeps its momentum state in a layout this harness does not know")
-                opt.momentum_buffer[0] = snapshot(b)
-                opt.t = 3
+                inject(opt, {"momentum_buffer": snapshot(b)}, 3)
                 R.state["buf"] = [b[i] for i in range(2)]
         else:
             cls = optim.Adam if sp["opt"] == "Adam" else optim.AdamW
@@ -273,15 +352,10 @@ class StepCase(Case):
                       maximize=h["maximize"])
             k = int(sp["state"])
             if k > 0:
-                if not all(isinstance(getattr(opt, a_, None), list) and len(getattr(opt, a_)) == 1 for a_ in ("m1", "m2", "steps")):
-                    from ..symnum.scalar import Unsupported
-                    raise Unsupported("Adam keeps its moment estimates in a layout this harness does not know")
+                self.injection_works(env, sp, k)
                 m = env.arr("m", shp)
                 v = env.arr("v", shp, lo=0, hi=3)
-                opt.m1[0] = snapshot(m)
-                opt.m2[0] = snapshot(v)
-                opt.steps[0] = k
-                opt.t = k
+                inject(opt, {"m1": snapshot(m), "m2": snapshot(v), "steps": k}, k)
                 R.state.update(m=[m[i] for i in range(2)], v=[v[i] for i in range(2)], t=k)
         opt.step()
         if sp["opt"] == "SGD":
